@@ -21,6 +21,7 @@ _G = {}
 # ten times the slowest legitimate call seen); only if it exceeds that too it is reported. After the first confirmed hang
 # later time-outs are reported at once (bounded total time).
 _CONFIRMED = mp.Value("i", 0)
+_RECYCLED = io.BytesIO()
 
 
 def patient(fn, *a, seconds=30, **kw):
@@ -264,7 +265,15 @@ def entry_points(data, all_keys):
         os.rmdir(d)
     res["XorEncodedFile.from_file"] = cls(patient(xordecode.XorEncodedFile.from_file, io.BytesIO(data), seconds=20))
     for name in ("find_mz_offset", "find_compile_stamps", "find_magic_mz", "find_magic_pe", "find_stage_prepend_append", "find_architecture"):
-        res["pe." + name] = cls(patient(getattr(pe, name), io.BytesIO(data), seconds=20))
+        fresh = patient(getattr(pe, name), io.BytesIO(data), seconds=20)
+        res["pe." + name] = cls(fresh)
+        # the same input in a file object that carried other inputs before (rewound, truncated, rewritten): same outcome
+        _RECYCLED.seek(0)
+        _RECYCLED.truncate()
+        _RECYCLED.write(data)
+        _RECYCLED.seek(0)
+        again = patient(getattr(pe, name), _RECYCLED, seconds=20)
+        res["pe." + name + "(recycled file object)"] = cls(again) if repr(again) == repr(fresh) or again[0] != "ok" or fresh[0] != "ok" else "result_depends_on_earlier_input"
     res["iter_artifactkit_payloads"] = cls(patient(lambda: sum(1 for _ in artifact.iter_artifactkit_payloads(io.BytesIO(data))), seconds=60))
     res["iter_guardrail_configs_with_beacon"] = cls(patient(lambda: sum(1 for _ in guardrails.iter_guardrail_configs_with_beacon(io.BytesIO(data))), seconds=120))
     res["parse_raw_http"] = cls(patient(c2.parse_raw_http, data, seconds=10))
@@ -334,6 +343,13 @@ def run(ctx):
         for pre in ((6144 - 6, 6144, 9000) if not q else (6144 - 6, 7000)):
             for suffix in (b"", b"\x00", b"\x00" * 5, b"\x41", start[:3]):
                 raw_jobs.append(("random", "guard_marker_at_eof", bytes(rng.choice([0x90, 0x00])) * 0 + bytes([0x90]) * pre + tail6 + suffix, 0))
+    # every other machine id a PE header can carry (one specific constant may take a path of its own)
+    pe_b = build("pe", ctx.seed)
+    mo, mw, _ = pe_b["fields"]["machine"]
+    for mid in (0x0200, 0xAA64, 0x01C0, 0x01C4, 0x0EBC, 0x5032, 0x5064, 0x0166, 0x01F0, 0x014D, 0x8663, 0x8665, 0x6486, 0x4C01):
+        dm = bytearray(pe_b["data"])
+        dm[mo : mo + 2] = mid.to_bytes(2, "little")
+        raw_jobs.append(("random", "machine_id", bytes(dm), 0))
     samples = []
     for z in sorted((core.REPO / "tests" / "beacons").glob("*.zip")):
         with zipfile.ZipFile(z) as zf:
